@@ -36,7 +36,8 @@ func init() {
 				}
 				return TupleV{E: []Value{p.timeVal(smt.Int(t.UnixNano()|1), nil), IfaceV{}}}
 			}
-			if len(s.A) == 1 && s.A[0].Prov != nil && s.A[0].Prov.Fn == "TimeFormat_"+id {
+			rfcFamily := layout == "2006-01-02T15:04:05Z07:00" || layout == "2006-01-02T15:04:05.999999999Z07:00"
+			if len(s.A) == 1 && s.A[0].Prov != nil && (s.A[0].Prov.Fn == "TimeFormat_"+id || (rfcFamily && s.A[0].Prov.Fn == "TimeFormat_"+rfc3339NanoID)) {
 				return TupleV{E: []Value{s.A[0].Prov.Args[0], IfaceV{}}}
 			}
 			arr, off, ln := p.viewOf(s, site)
